@@ -2,7 +2,8 @@
 // C15: the REAL keyFor functions of /repo/compiler/prelude/types.js, called on values of types that are
 // built with the real prelude constructors ($newType, $structType, $arrayType, $ptrType, $chanType, ...).
 //   mapkey reset
-//   mapkey deftype <tid> <strhex> <named 0|1> <type>     -> hex of typ.string
+//   mapkey deftype <tid> <strhex> <named 0|1> <type> [id] -> hex of typ.string ([id] is for the Lean side)
+//   mapkey typeid <tid>                                   -> typ.id of the registered type
 //   mapkey key  <type> <value>                            -> n:<number> | b:<bool> | s:<hex>
 //   mapkey pair <type> <value> <value>                    -> <key1> <key2> <same Map entry 0|1>
 // Type tokens (comma separated, prefix): B I:<kind> L U F32 F64 C64 C128 S P,<t> H,<t> E A<n>,<t> T<n>,<t>*n N<tid>
@@ -160,6 +161,7 @@ module.exports = function (repo, loadPrelude) {
         registry[a[1]] = typ;
         return U.strToHex(typ.string);
       }
+      case 'typeid': { const ty = registry[a[1]]; if (!ty) throw new Error('unknown tid'); return String(ty.id); }
       case 'key': { const typ = parseType(a[1].split(',')); return show(typ.keyFor(value(typ, a[2]))); }
       case 'pair': {
         const typ = parseType(a[1].split(','));
